@@ -94,36 +94,110 @@ def caller_object_params(pv, cg, reach, seeds):
             for callee in pv.callees(q, n):
                 if callee not in cg.funcs:
                     continue
-                for param, args in pv.bind_call(callee, n).items():
+                for param, args in pv.bind_call(callee, n, q).items():
                     if any(pv.same_object(a, q, p) for a in args) and (callee, param) not in seen:
                         seen.add((callee, param))
                         todo.append((callee, param))
     return seen
 
 
-def check_reader(rep, facts, cg, pv, reach):
-    fn = facts.funcs.get('read_lines')
-    if fn is None:
+def find_reader(pv, cg):
+    """The function that reads one source and calls itself for included files: `read_lines`, or the self-recursive function it
+    delegates to (a nested generator, a method of a reader object)."""
+    if 'read_lines' not in cg.funcs:
         raise AnalysisError('anchor vanished: read_lines')
+    cands = set()
+    inside = pv.reach('read_lines', dynamic=False)
+    for q in sorted(inside):
+        for n in walk_fn(cg.funcs[q]):
+            if isinstance(n, ast.Call):
+                for callee in pv.callees(q, n):
+                    if callee in cg.funcs and callee in inside and q in pv.reach(callee, dynamic=False):
+                        cands.add(callee)       # the call closes a cycle: callee is (re-)entered for an included file
+    if 'read_lines' in cands:
+        return 'read_lines'
+    if len(cands) == 1:
+        return next(iter(cands))
+    raise AnalysisError('read_lines: no single recursively entered reader function (candidates {})'.format(sorted(cands)))
+
+
+def desugar_generator(fn):
+    """A generator function as the list-building function it denotes: `yield x` -> out.append(x), `yield from e` -> out.extend(e),
+    out returned at the end (laziness aside, the produced sequence is the same).  The function is re-parsed from its own text, so
+    the analysed tree is not touched."""
+    tree = ast.parse(ast.unparse(fn))
+    new = tree.body[0]
+    ast.increment_lineno(new, fn.lineno - 1)
+    OUT = '__yielded'
+
+    def call(meth, arg, at):
+        return ast.copy_location(ast.Expr(value=ast.Call(func=ast.Attribute(value=ast.Name(id=OUT, ctx=ast.Load()), attr=meth, ctx=ast.Load()), args=[arg], keywords=[])), at)
+
+    class T(ast.NodeTransformer):
+        def visit_FunctionDef(self, node):
+            return node if node is not new else self.generic_visit(node)
+
+        def visit_Lambda(self, node):
+            return node
+
+        def visit_Expr(self, node):
+            v = node.value
+            if isinstance(v, ast.Yield):
+                return call('append', v.value or ast.Constant(value=None), node)
+            if isinstance(v, ast.YieldFrom):
+                return call('extend', v.value, node)
+            return node
+
+        def visit_Return(self, node):
+            if node.value is not None:
+                raise AnalysisError('{}: generator returns a value'.format(fn.name))
+            return ast.copy_location(ast.Return(value=ast.Name(id=OUT, ctx=ast.Load())), node)
+    T().visit(new)
+    if any(isinstance(n, (ast.Yield, ast.YieldFrom)) for n in ast.walk(new) if not isinstance(n, ast.Lambda)):
+        nested = [d for d in ast.walk(new) if isinstance(d, ast.FunctionDef) and d is not new]
+        if any(isinstance(n, (ast.Yield, ast.YieldFrom)) for n in ast.walk(new) if not any(n in ast.walk(d) for d in nested)):
+            raise AnalysisError('{}: a yield is used as an expression'.format(fn.name))
+    new.body.insert(0, ast.copy_location(ast.Assign(targets=[ast.Name(id=OUT, ctx=ast.Store())], value=ast.List(elts=[], ctx=ast.Load())), new.body[0]))
+    new.body.append(ast.copy_location(ast.Return(value=ast.Name(id=OUT, ctx=ast.Load())), new.body[-1]))
+    ast.fix_missing_locations(new)
+    for node in ast.walk(new):
+        for child in ast.iter_child_nodes(node):
+            child._parent = node
+    new._parent = None
+    return new
+
+
+def check_reader(rep, facts, cg, pv, reach):
+    reader = find_reader(pv, cg)
+    fn = cg.funcs[reader]
     a = fn.args
     pos = [x.arg for x in getattr(a, 'posonlyargs', []) + a.args]
+    is_method = '.' in reader and reader.split('.')[0] in facts.classes and bool(pos) and not fn.decorator_list
+    if is_method:
+        pos = pos[1:]
     all_params = pos + [x.arg for x in a.kwonlyargs]
     if not pos:
-        raise AnalysisError('read_lines takes no positional path parameter')
+        raise AnalysisError('{} takes no positional path parameter'.format(reader))
     path_param = pos[0]
     flag_params = [p for p in all_params if isinstance(pv.default_of(fn, p), ast.Constant) and pv.default_of(fn, p).value is False]
-    dir_params = [p for p in all_params if 'Dir' in pv.param_kinds('read_lines', p)]
+    dir_params = [p for p in all_params if 'Dir' in pv.param_kinds(reader, p)]
+    rep.note('reader function: {}'.format(reader)) if reader != 'read_lines' else None
     if not dir_params:
-        raise AnalysisError('read_lines: no parameter receives the caller\'s include directories')
+        check_ambient_dirs(rep, facts, cg, pv, reader)
 
     # R14.2 recursion: the included file is read by the path the search returned, as a file, with the caller's own -i list
     n_rec = 0
-    for q in sorted(pv.reach('read_lines')):
+    for q in sorted(pv.reach(reader)):
         for c in walk_fn(cg.funcs[q]):
-            if not (isinstance(c, ast.Call) and 'read_lines' in pv.callees(q, c)):
+            if not (isinstance(c, ast.Call) and reader in pv.callees(q, c)):
+                continue
+            if reader != 'read_lines' and q not in pv.reach(reader):
                 continue
             n_rec += 1
-            bound = pv.bind_call('read_lines', c)
+            bound = pv.bind_call(reader, c, q)
+            if '**' in bound:
+                defer(rep, '{}: the recursive read is given **{}: its options are not understood'.format(q, unparse(bound['**'][0])[:60]))
+                continue
             problems = []
             ks = set()
             for arg in bound.get(path_param, []):
@@ -194,22 +268,52 @@ def check_reader(rep, facts, cg, pv, reach):
     if not muts:
         rep.ok('R14.2.dirs-copied', 'the caller\'s include directory list is only read ({} by-reference uses followed)'.format(len(shared)))
 
-    check_splice(rep, facts, cg, fn)
+    check_splice(rep, facts, cg, fn, reader, is_method)
 
 
-def rec_calls(values):
+def check_ambient_dirs(rep, facts, cg, pv, reader):
+    """The reader takes no directory-list parameter: the caller's -i directories reach it through a closure variable or an attribute
+    of the reader object, shared by all nesting levels.  Then that shared list must hold the caller's directories only: nothing
+    (the directory of a file, the cwd) may ever be added to it."""
+    seen = 0
+    sites = []
+    for q in sorted(pv.reach(reader)):
+        fq = cg.funcs[q]
+        for n in walk_fn(fq):
+            if isinstance(n, ast.Name) and isinstance(n.ctx, ast.Load) and n.id not in pv.params(fq):
+                if any(h[0] == 'free' for h, _ in pv.reaching(q, n)) and 'Dir' in pv.kinds(n, q):
+                    sites.append((q, n))
+            elif isinstance(n, ast.Attribute) and isinstance(n.ctx, ast.Load) and pv.attr_stores().get(n.attr) and 'Dir' in pv.kinds(n, q):
+                sites.append((q, n))
+    for q, shared in sites:
+        seen += 1
+        ks = set(pv.kinds(shared, q)) - {'NoneK'}
+        if ks & UNCLASSIFIED:
+            defer(rep, '{}: the shared include directory list {} could not be classified ({})'.format(reader, unparse(shared), sorted(ks)))
+            continue
+        rep.check(ks == {'Dir'}, 'R14.2.recursion', '{}: the include directories shared by all nesting levels ({}) hold the caller\'s directories only'.format(reader, unparse(shared)),
+                  lambda shared=shared, ks=ks: Finding('R14.2.recursion', reader, shared, 'the directory list shared by all nesting levels ({}) also receives {}: directories of one file '
+                                                       'leak into the files it includes'.format(unparse(shared), '/'.join(sorted(ks - {'Dir'}))), line=shared.lineno))
+    if not seen:
+        raise AnalysisError('{}: no parameter, closure variable or attribute carries the caller\'s include directories'.format(reader))
+
+
+def rec_calls(values, name='read_lines'):
     out = []
     for v in values:
-        for r in find_all(v, lambda t: t[0] == 'call' and t[1] == 'read_lines'):
+        for r in find_all(v, lambda t: (t[0] in ('call',) and t[1] == name) or (t[0] == 'mcall' and t[2] == name)):
             if r not in out:
                 out.append(r)
     return out
 
 
+REC_NAME = ['read_lines']      # simple name under which the reader calls itself (set per run)
+
+
 def parts_of(value):
     """What a value spliced into the line list contributes: [('rec', call) | ('one', v) | ('opaque', v)]."""
     v = strip_res(value)
-    if v[0] == 'call' and v[1] == 'read_lines':
+    if (v[0] == 'call' and v[1] == REC_NAME[0]) or (v[0] == 'mcall' and v[2] == REC_NAME[0]):
         return [('rec', v)]
     if v[0] in ('list', 'tuple'):
         out = []
@@ -266,8 +370,12 @@ def check_index_iteration(loop, paths):
                     raise AnalysisError('read_lines: rows are read at {} (not the current index)'.format(show(t)[:60]))
 
 
-def check_splice(rep, facts, cg, fn):
+def check_splice(rep, facts, cg, fn, reader='read_lines', is_method=False):
     """R14.3: the returned list is the in-order concatenation, over the source lines, of what each line contributes."""
+    REC_NAME[0] = fn.name
+    if any(isinstance(n, (ast.Yield, ast.YieldFrom)) for n in walk_fn(fn)):
+        fn = desugar_generator(fn)
+    rec_calls_ = lambda values: rec_calls(values, REC_NAME[0])
     ret = [st for st in fn.body if isinstance(st, ast.Return) and st.value is not None]
     if not ret:
         raise AnalysisError('read_lines: no top-level return')
@@ -277,14 +385,14 @@ def check_splice(rep, facts, cg, fn):
     n_inc = 0
     if result is not None and loops:
         # loop form: the list is grown inside the (first) top-level loop
-        loop, paths = loop_paths_h(facts, fn)
+        loop, paths = loop_paths_h(facts, fn, opaque={fn.name}, self_class=reader.split('.')[0] if is_method else None)
         if isinstance(loop, ast.While):
             check_index_iteration(loop, paths)
         is_result = lambda v: v in (('lv', result), ('name', result))
         for p in paths:
             if p.end == 'raise':
                 continue
-            recs = rec_calls([part for ev in p.events for part in ev[1:]])
+            recs = rec_calls_([part for ev in p.events for part in ev[1:]])
             parts = []
             node = None
             unknown_mut = None
@@ -305,7 +413,7 @@ def check_splice(rep, facts, cg, fn):
                         unknown_mut = e
             if unknown_mut is not None:
                 continue        # reported by R14.3.order below
-            if judge_contribution(rep, 'read_lines', p.cond_text(), recs, parts, node or p.end_node or loop, fn.lineno) == 'include':
+            if judge_contribution(rep, reader, p.cond_text(), recs, parts, node or p.end_node or loop, fn.lineno) == 'include':
                 n_inc += 1
         bad = [n for n in ast.walk(fn) if isinstance(n, ast.Call) and isinstance(n.func, ast.Attribute) and n.func.attr in ('insert', 'sort', 'reverse', 'pop', 'remove', 'clear')
                and isinstance(n.func.value, ast.Name) and n.func.value.id == result]
@@ -323,14 +431,14 @@ def check_splice(rep, facts, cg, fn):
         if not (g is not None and isinstance(value.elt, ast.Name) and isinstance(g.target, ast.Name) and g.target.id == value.elt.id and not g.ifs
                 and isinstance(g.iter, ast.Call) and isinstance(g.iter.func, ast.Name)):
             raise AnalysisError('read_lines: the returned list is neither grown in a loop nor a flattening comprehension over a per-line function')
-        target = cg.local_defs('read_lines').get(g.iter.func.id) or (g.iter.func.id if g.iter.func.id in facts.funcs else None)
+        target = cg.local_defs(reader).get(g.iter.func.id) or (g.iter.func.id if g.iter.func.id in facts.funcs else None)
         if target is None:
             raise AnalysisError('read_lines: per-line function {} not found'.format(g.iter.func.id))
         w, paths = function_paths(facts, cg.funcs[target])
         for p in paths:
             if p.end == 'raise':
                 continue
-            recs = rec_calls([part for ev in p.events for part in ev[1:]])
+            recs = rec_calls_([part for ev in p.events for part in ev[1:]])
             rv = [e for e in p.events if e[0] == 'return']
             if not rv:
                 defer(rep, '{}: a path returns nothing to flatten'.format(target))
@@ -361,7 +469,10 @@ def check_cli(rep, facts, cg, pv):
     dir_params = [p for p in pv.params(afn) if 'Dir' in pv.param_kinds('assemble', p)]
     n_sources = 0
     for q, c in calls:
-        bound = pv.bind_call('assemble', c)
+        bound = pv.bind_call('assemble', c, q)
+        if '**' in bound:
+            defer(rep, '{}: assemble() is given **{}: its options are not understood'.format(q, unparse(bound['**'][0])[:60]))
+            continue
         for arg in bound.get(path_param, []):
             ok = pv.is_abs(arg, q)
             rep.check(ok, 'R14.4.cli', '{}: the input path is made absolute before assembling'.format(q),
